@@ -50,6 +50,7 @@ type tree interface {
 	// ExportTo exports version v and imports it into a fresh tree on db
 	ExportTo(v int64, db dbm.DB, o opt) (tree, error)
 	Spec() *ics23.ProofSpec
+	Height() int // of the working tree (coverage statistics only)
 }
 
 func drain(it dbm.Iterator) ([]kv, error) {
@@ -122,6 +123,7 @@ func (b *bpTree) Version() int64                                 { return b.t.Ve
 func (b *bpTree) AvailableVersions() []int                       { return b.t.AvailableVersions() }
 func (b *bpTree) VersionExists(v int64) bool                     { return b.t.VersionExists(v) }
 func (b *bpTree) Spec() *ics23.ProofSpec                         { return bp.BptreeSpec }
+func (b *bpTree) Height() int                                    { return int(b.t.Height()) }
 
 func (b *bpTree) ExportTo(v int64, db dbm.DB, o opt) (tree, error) {
 	im, err := b.t.GetImmutable(v)
@@ -269,6 +271,7 @@ func (b *iaTree) AvailableVersions() []int {
 }
 func (b *iaTree) VersionExists(v int64) bool { return b.t.VersionExists(v) }
 func (b *iaTree) Spec() *ics23.ProofSpec     { return ics23.IavlSpec }
+func (b *iaTree) Height() int                { return int(b.t.Height()) }
 
 func (b *iaTree) ExportTo(v int64, db dbm.DB, o opt) (tree, error) {
 	im, err := b.t.GetImmutable(v)
